@@ -247,6 +247,23 @@ def C13_FullStatement : Prop :=
 /-- `<start> ::= <n> | <n> <n>; <n> ::= r"[0-9]+"` -/
 def splitAlts : List (List TTerm) := [[.regex 0], [.regex 0, .regex 0]]
 
+/-- **the full statement is false**: with the oracle of `r"[0-9]+"` the engine for `<n> | <n> <n>` is lawful,
+    the fresh parse is ready, the run on "12" is aligned — and feeding "1","2" yields the parse 1·2 that
+    feeding "12" does not. -/
+theorem C13_full_statement_false : ¬ C13_FullStatement := by
+  intro h
+  have hs := h linEngine digits .text C13_linEngine_lawful.1 (linStart splitAlts) (linStart_ready _)
+    [[49], [50]] (aligned_of_check _ (by decide +kernel))
+  have hin : [Leaf.text [49], Leaf.text [50]] ∈
+      (completeParses linEngine ([[49], [50]].foldl (feed linEngine digits .text) (linStart splitAlts))).map
+        Tree.leaves := by decide +kernel
+  have hout : [Leaf.text [49], Leaf.text [50]] ∉
+      (completeParses linEngine (feed linEngine digits .text (linStart splitAlts) [[49], [50]].flatten)).map
+        Tree.leaves := by decide +kernel
+  rw [List.mem_map] at hin
+  obtain ⟨t, ht, hl⟩ := hin
+  exact hout (List.mem_map.mpr ⟨t, (hs t).mp ht, hl⟩)
+
 /-- "12" at once: one parse; "1" then "2": two parses (the boundary offers the split 1|2) -/
 theorem C13_regex_split_counterexample :
     (completeParses linEngine (feed linEngine digits .text (linStart splitAlts) [49, 50])).length = 1 ∧
